@@ -9,8 +9,8 @@ import numpy as np
 import common as C
 
 PROP = "C02"
-LEAN_MODULES = ["AcryoVerif.Props.C02"]
-LEAN_SUPPORT = ["AcryoVerif.Lemmas.PyLemmas", "AcryoVerif.Model.Crop"]
+LEAN_MODULES = ["AcryoVerif.Props.C02", "AcryoVerif.Props.C02Array"]
+LEAN_SUPPORT = ["AcryoVerif.Lemmas.PyLemmas", "AcryoVerif.Model.Crop", "AcryoVerif.Model.Load"]
 KERNELS = ["makeSliceAndPad", "prepareAffineAxis", "prepareAffineOutputCenter", "cornerSafeAxis",
            "cornerSafeOutputCenter"]
 TRUSTED = [
@@ -31,10 +31,19 @@ EXPLANATION = (
     "Theorems (all inputs): slice/pad arithmetic of make_slice_and_pad (inside [0,N), non-empty, "
     "length preserved, out-of-bound error iff no overlap), window width, coordinate rule "
     "c + R(k-(n-1)/2) independent of the window origin, window covers the interpolation support "
-    "for prepare_affine and for the corner-safe variant. Tie: kernels regenerated from "
-    "acryo/_utils.py; prepare_affine(_cornersafe) compared with Model.cropAxis; loader.load "
+    "for prepare_affine and for the corner-safe variant. Array level (C02Array): Model.loadAxis follows the "
+    "code along one axis (regenerated window / clipping / centre kernels, mean padding, evaluation at "
+    "new_center + k - output_center); loadAxis_spec: for every tomogram, box size, spline order and "
+    "grid-coincident centre (also negative, straddling, outside) the box is the tomogram block where it "
+    "overlaps and the mean of the clipped block elsewhere, and the out-of-bound error is raised exactly when "
+    "the window misses the tomogram. Tie: kernels regenerated from "
+    "acryo/_utils.py; prepare_affine(_cornersafe) compared with Model.cropAxis; the real loader along one axis "
+    "(numpy and dask, load / asnumpy) compared with Model.loadAxis; loader.load "
     "replayed against whole-tomogram interpolation.")
 SAMPLE_OBLIGATIONS = [
+    {"theorem": "C02.loadAxis_spec",
+     "statement": "grid-coincident centre: loadAxis = tomogram block where in bounds, one finite fill value elsewhere; "
+                  "error oob iff the window misses the tomogram (all N, s, order, c)"},
     {"theorem": "C02.slice_error_iff",
      "statement": "makeSliceAndPad z0 z1 N = error oob <-> N <= z0 or z1 <= 0 (for z0<z1, N>0)"},
     {"theorem": "C02.window_covers",
@@ -112,7 +121,56 @@ def correspondence(rng, thorough):
             stats["error"] += 1
         lines.append(op)
         impl.append(out)
+    # array level: the real loader along one axis (identity orientation, grid-coincident centre) against
+    # Model.loadAxis: interior, straddling either face, outside, negative centres; odd and even boxes; orders 0/1/3
+    from acryo import SubtomogramLoader, Molecules
+    stats.update({"load1d": 0, "load1d_straddle": 0, "load1d_error": 0, "load1d_even": 0, "load1d_dask": 0})
+    for it in range(150 if thorough else 45):
+        ax = it % 3
+        N = int(rng.integers(1, 14))
+        sbox = int(rng.integers(1, 8))
+        order = [0, 1, 3][(it // 3) % 3]
+        k0 = int(rng.integers(-sbox - 6, N + 6))
+        cpx = Fraction(k0) + Fraction(sbox - 1, 2)
+        scale = Fraction([1, 1, 2, 13][it % 4], [1, 2, 1, 8][it % 4])
+        vals = [int(v) for v in rng.integers(0, 40, size=N)]
+        shp = [1, 1, 1]
+        shp[ax] = N
+        tomo = np.array(vals, dtype=np.float32).reshape(shp)
+        if it % 2:
+            import dask.array as da
+            tomo = da.from_array(tomo, chunks=tuple(max(1, n // 2) for n in shp))
+            stats["load1d_dask"] += 1
+        pos = [0.0, 0.0, 0.0]
+        pos[ax] = float(cpx * scale)
+        box = [1, 1, 1]
+        box[ax] = sbox
+        try:
+            ld = SubtomogramLoader(tomo, Molecules(np.array([pos])), order=order, scale=float(scale), output_shape=tuple(box))
+            out = np.asarray([ld.load(0), np.asarray(ld.asnumpy())[0]][it % 2]).reshape(-1)
+            res = " ".join(repr(float(v)) for v in out)
+        except Exception as e:  # noqa: BLE001
+            res = C.exc_kind(e)
+            stats["load1d_error"] += 1
+        lines.append(f"m:load1d {C.rat_str(cpx)} {sbox} {order} {N} " + " ".join(map(str, vals)))
+        impl.append(res)
+        stats["load1d"] += 1
+        stats["load1d_even"] += sbox % 2 == 0
+        stats["load1d_straddle"] += (k0 < 0 < k0 + sbox) or (k0 < N < k0 + sbox)
     return lines, impl, stats
+
+
+def k2_post(line, impl_out, model_out):
+    if not line.startswith("m:load1d") or impl_out.startswith("err") or model_out.startswith("err"):
+        return impl_out, model_out
+    try:
+        a = np.array([float(x) for x in impl_out.split()])
+        b = np.array([float(Fraction(x)) for x in model_out.split()])
+        if a.shape == b.shape and np.abs(a - b).max(initial=0.0) <= 2e-4 * (1 + np.abs(b).max(initial=0.0)):
+            return "box-agrees", "box-agrees"
+        return "box " + " ".join(f"{x:.4f}" for x in a), "box " + " ".join(f"{x:.4f}" for x in b)
+    except Exception as e:  # noqa: BLE001
+        return impl_out, f"unparsable: {e}"
 
 
 # ------------------------------------------------------------------------------------------
